@@ -15,6 +15,7 @@ import (
 	"google.golang.org/grpc/codes"
 	"google.golang.org/grpc/connectivity"
 	"google.golang.org/grpc/internal/verif/vk"
+	"google.golang.org/grpc/internal/verif/wire"
 	"google.golang.org/grpc/status"
 )
 
@@ -63,7 +64,16 @@ var c23Outcomes = []string{
 	"policyRetryOK", "policyRetryExhaust", "policyRetryCancelBackoff",
 	"cancelMid", "cancelAfterHdrs", "deadlineMid", "ccCloseMid",
 	"nsHdrList", "nsQuotaGoAway", "nsQuotaClose",
+	// the server answers a non-server-streaming RPC with TWO response messages
+	// (HEADERS, DATA(msg), DATA(msg)), without / with trailers after them
+	"unary2Resp", "unary2RespTrailers",
 }
+
+// c23KeySecondResponse is the single canonical key of the known finding "a
+// second response message on a non-server-streaming RPC makes Invoke /
+// clientStreamWrapper.RecvMsg return INTERNAL (cardinality violation) without
+// finishing the client stream, so the pick's Done is never invoked".
+const c23KeySecondResponse = "done-never-called/second-response-on-unary-rpc"
 
 // c23Expect: scenario knowledge used for the "error info consistent with the
 // attempt" part of the oracle and for script-drift detection: the code the
@@ -106,7 +116,7 @@ func c23Expected(term string) c23Expect {
 		return c23Expect{one(codes.DeadlineExceeded), one(codes.DeadlineExceeded), 1}
 	case "ccCloseMid":
 		return c23Expect{[]codes.Code{codes.Canceled, codes.Unavailable}, []codes.Code{codes.Canceled, codes.Unavailable}, 1}
-	case "nsHdrList":
+	case "nsHdrList", "unary2Resp", "unary2RespTrailers":
 		return c23Expect{one(codes.Internal), one(codes.Internal), 1}
 	}
 	panic("c23: unknown term " + term)
@@ -266,6 +276,9 @@ func c23RunInBubble(t *testing.T, c c23Case, res *c23Result) {
 	var rpc *c23RPC
 	if c.API == "unary" {
 		rpc = w.startUnary(ctx, method, []byte("req"), opts...)
+	} else if isReady && strings.HasPrefix(outcome, "unary2Resp") {
+		// client-streaming, non-server-streaming RPC used CloseAndRecv style: one RecvMsg
+		rpc = w.startStreamDesc(ctx, c23ClientStreamDesc, 1, method, []byte("req"), 1, opts...)
 	} else {
 		rpc = w.startStream(ctx, method, []byte("req"), 1, opts...)
 	}
@@ -514,6 +527,15 @@ func c23ReadyFlow(w *c23World, outcome string, rpc *c23RPC, cancel func(), res *
 		if _, ok := need(false); ok {
 			w.cc.Close()
 		}
+	case "unary2Resp", "unary2RespTrailers":
+		if s, ok := need(false); ok {
+			s.Peer.WriteHeaders(s.ID, c23RespHdr, false)
+			s.Peer.WriteData(s.ID, false, wire.GrpcMsg(false, []byte("first")))
+			s.Peer.WriteData(s.ID, false, wire.GrpcMsg(false, []byte("second")))
+			if outcome == "unary2RespTrailers" {
+				s.Peer.WriteHeaders(s.ID, [][2]string{{"grpc-status", "0"}}, true)
+			}
+		}
 	case "nsHdrList":
 		synctest.Wait()
 		if ss := w.newStreams(); len(ss) != 0 && res.Engine == "" {
@@ -591,7 +613,14 @@ func c23Evaluate(r *vk.Run, c c23Case) {
 	res := c23Run(r.T, c)
 	r.Eval(P, 1)
 	for _, f := range res.Fails {
-		r.Violation(P, f.Class+": "+c.String(), f.Desc+" | trace: "+res.Trace, c)
+		key := f.Class + ": " + c.String()
+		desc := f.Desc
+		if f.Class == "done-missed" && strings.HasPrefix(c.Term, "ready:unary2Resp") {
+			// one canonical key for every history of this family (quick and thorough alike)
+			key = c23KeySecondResponse
+			desc = "raw server answers a non-server-streaming RPC (cc.Invoke, or NewStream with ServerStreams=false + SendMsg/CloseSend/RecvMsg) with HEADERS(:status 200), DATA(gRPC message), DATA(second gRPC message) [+ optional trailers grpc-status 0]: the call returns INTERNAL 'cardinality violation' but the client stream is not finished, so the READY pick's Done callback is never invoked (not by quiescence after the RPC returned; for Invoke not even after ClientConn.Close). First history: " + c.String() + " | " + f.Desc
+		}
+		r.Violation(P, key, desc+" | trace: "+res.Trace, c)
 	}
 	if res.Engine != "" {
 		if len(res.Fails) == 0 {
